@@ -596,3 +596,133 @@ func paramArg(c ssa.CallInstruction, n int) ssa.Value {
 	}
 	return nil
 }
+
+// ---------------------------------------------------------------------------
+// Relation dataflow: which of {L<R, L==R, L>R} are still possible at a block,
+// given the comparisons of the two roles passed on the way (path-insensitive
+// join = union). Precise for chained tests of one operand pair.
+// ---------------------------------------------------------------------------
+
+const (
+	bitLT uint8 = 1 << iota
+	bitEQ
+	bitGT
+	bitAll = bitLT | bitEQ | bitGT
+)
+
+func satBits(r Rel) uint8 {
+	switch r {
+	case LT:
+		return bitLT
+	case LE:
+		return bitLT | bitEQ
+	case GT:
+		return bitGT
+	case GE:
+		return bitGT | bitEQ
+	case EQ:
+		return bitEQ
+	case NE:
+		return bitLT | bitGT
+	}
+	return bitAll
+}
+
+// relFlow computes, per block, the relations between roles L and R that are
+// possible on entry to the block. Blocks in `removed` are treated as absent
+// (paths through them do not count). Unreachable blocks map to 0.
+func relFlow(fn *ssa.Function, L, R VP, removed map[*ssa.BasicBlock]bool) (map[*ssa.BasicBlock]uint8, bool) {
+	state := map[*ssa.BasicBlock]uint8{}
+	if len(fn.Blocks) == 0 {
+		return state, false
+	}
+	compared := false
+	state[fn.Blocks[0]] = bitAll
+	work := []*ssa.BasicBlock{fn.Blocks[0]}
+	for len(work) > 0 {
+		b := work[len(work)-1]
+		work = work[:len(work)-1]
+		if removed[b] {
+			continue
+		}
+		in := state[b]
+		outs := make([]uint8, len(b.Succs))
+		for i := range outs {
+			outs[i] = in
+		}
+		if iff := prog.IfOf(b); iff != nil && len(b.Succs) == 2 {
+			if r, ok := relOnTrue(iff.Cond, L, R, nil); ok && r != RelNone {
+				compared = true
+				outs[0] = in & satBits(r)
+				outs[1] = in & satBits(negRel(r))
+			}
+		}
+		for i, s := range b.Succs {
+			if outs[i] == 0 {
+				continue
+			}
+			if state[s]|outs[i] != state[s] {
+				state[s] |= outs[i]
+				work = append(work, s)
+			}
+		}
+	}
+	return state, compared
+}
+
+// mustPassWhen decides: whenever (L bad R) is possible, every path to `site`
+// passes `via`. It fails when the roles are never compared.
+func (x *Ctx) mustPassWhen(key string, site, via ssa.Instruction, L, R VP, bad Rel, held, violated string) bool {
+	fn := site.Parent()
+	st, compared := relFlow(fn, L, R, map[*ssa.BasicBlock]bool{via.Block(): true})
+	ok := compared && st[site.Block()]&satBits(bad) == 0
+	if via.Block() == site.Block() && prog.InstrIndex(via) < prog.InstrIndex(site) {
+		ok = compared
+	}
+	if !compared {
+		violated = "no comparison of (" + L.Desc + ") with (" + R.Desc + ") decides the path; " + violated
+	}
+	x.check(ok, key, x.pos(site), held, violated)
+	return ok
+}
+
+// onlyWhen decides: `site` is reached only when (L want R) holds, by relation
+// dataflow over the comparisons of the two roles.
+func (x *Ctx) onlyWhen(key string, site ssa.Instruction, L, R VP, want Rel, held, violated string) bool {
+	st, compared := relFlow(site.Parent(), L, R, nil)
+	ok := compared && st[site.Block()] != 0 && st[site.Block()]&^satBits(want) == 0
+	x.check(ok, key, x.pos(site), held, violated)
+	return ok
+}
+
+// sameAccessPath: two values denote the same storage path (identical value, or
+// the same field chain over the same base) — go/ssa does no CSE, so each source
+// mention of pair.elem is a new instruction.
+func sameAccessPath(a, b ssa.Value) bool {
+	a, b = prog.Strip(a), prog.Strip(b)
+	if a == b {
+		return true
+	}
+	fa, fb := prog.LoadedField(a), prog.LoadedField(b)
+	if fa != nil && fa == fb {
+		return sameAccessPath(prog.FieldBase(a), prog.FieldBase(b))
+	}
+	// field address bases
+	if xa, ok := a.(*ssa.FieldAddr); ok {
+		if xb, ok := b.(*ssa.FieldAddr); ok && xa.Field == xb.Field {
+			return sameAccessPath(xa.X, xb.X)
+		}
+	}
+	// loads of the same local
+	if ua, ok := a.(*ssa.UnOp); ok {
+		if ub, ok := b.(*ssa.UnOp); ok && ua.Op == token.MUL && ub.Op == token.MUL {
+			return sameAccessPath(ua.X, ub.X)
+		}
+	}
+	if ea, ok := a.(*ssa.Extract); ok {
+		if eb, ok := b.(*ssa.Extract); ok {
+			return ea.Index == eb.Index && ea.Tuple == eb.Tuple
+		}
+	}
+	return false
+}
